@@ -345,6 +345,9 @@ func (f *Frame) acquire(instr ssa.Instruction, n *types.Named, mu string, obj *T
 	for _, cl := range tc.Invariants {
 		f.assume(f.evalBool(cl.E, env), "lock invariant after acquire")
 	}
+	if f.isTop {
+		f.lockSnap = f.st // state at the start of the critical section (for `critical` clauses)
+	}
 }
 
 func (f *Frame) propsWith(extra []string) []string {
@@ -375,6 +378,17 @@ func (f *Frame) release(instr ssa.Instruction, n *types.Named, mu string, obj *T
 				ps = tc.Props
 			}
 			e.addObl("lockinv", tc.Key+"."+label, f.curGuard, f.evalBool(cl.E, env), f.where(instr.Pos()), ps)
+		}
+		// postconditions of the critical section of the function under verification
+		if f.isTop && f.C != nil && f.lockSnap != nil {
+			for i, cl := range f.C.Critical {
+				label := cl.Label
+				if label == "" {
+					label = fmt.Sprintf("%d", i+1)
+				}
+				cenv := &Env{F: f, State: f.st, Old: f.lockSnap, Fn: f.Fn}
+				e.addObl("critical", label, f.curGuard, f.evalBool(cl.E, cenv), cl.Where, f.clauseProps(cl))
+			}
 		}
 	}
 	f.st = f.st.Clone()
